@@ -321,9 +321,11 @@ static void run_cmd(const sim::Cmd &c, sim::Out &out)
   // tautology added. A verdict only counts when the search ended; a positive one only when the solution checks.
   if ((prop == "C02" || c.num("variants", 0)) && status == "OK" && viols.empty() && verdict >= 0 && c.num("variants", 1) != 0)
   {
-    for (int k = 0; k < 5 && viols.empty(); ++k)
+    const int n_variants = verdict == 1 && c.num("relaxation", 1) != 0 ? 6 : 5;
+    std::string dropped;
+    for (int k = 0; k < n_variants && viols.empty(); ++k)
     {
-      const std::string text = k < 2 ? b.variant(seed * 31 + static_cast<uint64_t>(k), k == 1) : (k == 2 ? b.variant_with_dead_disjunct() : (k == 3 ? b.variant_reversed_formulas() : b.variant_fact_twice(seed)));
+      const std::string text = k == 5 ? b.variant_relaxed(seed, dropped) : k < 2 ? b.variant(seed * 31 + static_cast<uint64_t>(k), k == 1) : (k == 2 ? b.variant_with_dead_disjunct() : (k == 3 ? b.variant_reversed_formulas() : b.variant_fact_twice(seed)));
       if (text.empty())
         continue;
       ratio::solver *s2 = new ratio::solver();
@@ -395,13 +397,15 @@ static void run_cmd(const sim::Cmd &c, sim::Out &out)
               witness_late_unification = true;
         }
       }
+      if (k == 5)
+        cnt.inc(v2 == 1 ? "p7c.relaxation_solved" : "p7c.relaxation_unsolvable");
       if (v2 == verdict)
       {
         cnt.inc("p7c.same_verdict");
         continue;
       }
       const std::string whole = one_line(text).substr(0, 500);
-      const std::string how_variant = k == 4 ? std::string("read as one unit with one of its facts stated twice") : k == 3 ? std::string("read as one unit with its goal/fact/disjunction statements in the opposite order") : k == 2 ? std::string("read as one unit with one more, unachievable disjunct in every disjunction") : std::string("read as one unit with its independent constraints reordered") + (k == 1 ? " and a tautology added" : "");
+      const std::string how_variant = k == 5 ? std::string("read as one unit WITHOUT the constraint `" + dropped + "` (a relaxation: every solution of the problem solves it)") : k == 4 ? std::string("read as one unit with one of its facts stated twice") : k == 3 ? std::string("read as one unit with its goal/fact/disjunction statements in the opposite order") : k == 2 ? std::string("read as one unit with one more, unachievable disjunct in every disjunction") : std::string("read as one unit with its independent constraints reordered") + (k == 1 ? " and a tautology added" : "");
       std::string msg;
       if (verdict == 0)
         msg = "the planner answered '" + verdict_how + "' but the same problem, " + how_variant + ", is solved and that solution checks | problem: " + whole;
